@@ -109,7 +109,7 @@ FromBuffers(F, n, C, path) ==
          ELSE LET mine(k) == Select([q \in 1..n |-> q], LAMBDA q : t[q] = k - 1)
                   need(k) == IF mine(k) = <<>> THEN 0 ELSE SeqMax([q \in 1..Len(mine(k)) |-> i[mine(k)[q]]]) + 1
                   xs == [k \in 1..Len(F.xs) |-> FromBuffers(F.xs[k], need(k), C, path \o <<k>>)]
-              IN IF \E k \in 1..Len(xs) : IsBad(xs[k]) THEN Bad ELSE UnionL(t, i, xs)
+              IN IF \E k \in 1..Len(xs) : IsBad(xs[k]) THEN Bad ELSE UnionL(SubSeq(t, 1, n), SubSeq(i, 1, n), xs)      \* (F77)
 
 RoundTrip(L) == LET b == ToBuffers(L) IN FromBuffers(b.form, b.length, b.container, <<>>)
 
